@@ -20,7 +20,8 @@ def RAISE_ORACLE(profile):
 
 FAULT_KINDS = ['empty_avail', 'bad_avail_keys_kept', 'nan_inplace', 'hess_without_grad_kept', 'pandas_dropped_column', 'pandas_added_column', 'absent_column', 'dup_name', 'draws_outside', 'rv_outside', 'hess_without_grad', 'bad_choice_key',
                'bad_avail_keys', 'nan_data', 'text_data', 'empty_data', 'panel_outside', 'nests_overlap',
-               'nests_outside', 'nests_overlap_far', 'panel_outside_mc', 'missing_read', 'missing_unread']
+               'nests_outside', 'nests_overlap_far', 'panel_outside_mc', 'missing_read', 'missing_unread',
+               'mc_catalog_switch']
 
 
 def make_config(rng, profile, tier):
@@ -325,6 +326,18 @@ class Session:
                                   lambda: float(e.get_value_c(prepare_ids=True)))
                     if v2 is not None and not ref.close(v2, w, 1e-10, 1e-12):
                         ctx.fail('I01.value', f'engine {v2!r}, mathematical value {w!r} for {ast}')
+                    # the same object over the rows of a table (one value per row), then on its own again
+                    d_ = self.dbs[a[0] % 2]
+                    v3 = self.lib('get_value_c of a variable-free formula over a table',
+                                  lambda: [float(z_) for z_ in e.get_value_c(database=d_, prepare_ids=True)])
+                    if v3 is not None and (len(v3) != len(self.rows) or any(not ref.close(z_, w, 1e-10, 1e-12) for z_ in v3)):
+                        ctx.fail('I01.value', f'engine over a table of {len(self.rows)} rows: {v3!r}, mathematical value {w!r} '
+                                              f'on every row for {ast}')
+                    v4 = self.lib('get_value_c of a variable-free formula, after an evaluation over a table',
+                                  lambda: float(e.get_value_c(prepare_ids=True)))
+                    if v4 is not None and not ref.close(v4, w, 1e-10, 1e-12):
+                        ctx.fail('I01.value', f'engine {v4!r} after an evaluation of the same object over a table, '
+                                              f'mathematical value {w!r} for {ast}')
                     ctx.log(kind, fhex(v))
         elif kind == 'MAKE_BIOGEME':
             idxs, dbi, T = a
